@@ -157,6 +157,7 @@ class Evaluator:
         self.sig_register, self.sig_constraint, self.sig_evse = sig_register, sig_constraint, sig_evse
         self.steps = 0
         self.nets = []
+        self.repo = None
 
     def fail(self, node, why):
         raise AnalysisError(f"{self.module}: site evaluator: {why}: `{src(node, 80)}` (line {getattr(node, 'lineno', '?')})")
@@ -225,7 +226,11 @@ class Evaluator:
                 self.assign(s.target, self.ex(s.value, env), env)
         elif isinstance(s, ast.AugAssign):
             cur = self.ex(ast.copy_location(_load(s.target), s), env)
-            v = self.binop(s.op, cur, self.ex(s.value, env), s)
+            rhs = self.ex(s.value, env)
+            if isinstance(cur, Cur):
+                v = self.inplace_current(s.op, cur, rhs, s)
+            else:
+                v = self.binop(s.op, cur, rhs, s)
             self.assign(s.target, v, env)
         elif isinstance(s, ast.If):
             self.block(s.body if self.truth(self.ex(s.test, env), s.test) else s.orelse, env)
@@ -255,6 +260,21 @@ class Evaluator:
         if isinstance(v, (list, tuple, str, dict, range, set)):
             return list(v)
         self.fail(node, "iteration over a non-literal")
+
+    def inplace_current(self, op, l, r, node):
+        """`c += d` on a Current.  Current defines no in-place operators (checked on the analysed tree), so pandas' Series.__iadd__
+        runs: it computes type(self).__add__(self, other) and then updates *the left object in place, re-indexed like itself* -
+        stations only the right operand names are dropped, and every other name bound to the left object sees the change."""
+        names = {ast.Add: "__iadd__", ast.Sub: "__isub__", ast.Mult: "__imul__", ast.Div: "__itruediv__"}
+        nm = names.get(type(op))
+        if nm is None:
+            self.fail(node, "in-place operator on Current outside the algebra")
+        ci = self.repo.cls("Current") if self.repo is not None else None
+        if ci is not None and nm in getattr(ci, "methods", {}):
+            self.fail(node, f"Current.{nm} is defined: its in-place semantics are not modelled")
+        res = self.binop(op, l, r, node)
+        l.coef = {k: res.coef.get(k, 0) for k in l.coef}
+        return l
 
     def binop(self, op, l, r, node):
         if isinstance(l, Cur) or isinstance(r, Cur):
@@ -545,6 +565,7 @@ def evaluate_site(repo, module_suffix, fname, **overrides):
     con = repo.method(net_cls, "add_constraint")
     gebt = repo.fn("get_evse_by_type")
     ev = Evaluator(tree, rel, reg.params[1:], con.params[1:], gebt.params)
+    ev.repo = repo
     if fname not in ev.funcs:
         raise AnalysisError(f"site factory {fname} not found in {rel}")
     fn = ev.funcs[fname]
